@@ -53,8 +53,16 @@ def exact(c):
     tie = False
     lo, hi = 0, N
     ts = [tail(N, G, n, x) for G in range(N + 1)]
-    if any(abs(t[0] - a) < Fraction(1, 10**12) or abs(t[1] - a) < Fraction(1, 10**12) for t in ts):
-        tie = True
+    # a tail exactly equal to the level: the library compares floats, so noise may decide.  The case is skipped only
+    # when the float difference the library computes has the WRONG sign (noise flips the inclusive comparison);
+    # a difference of exactly 0.0 (dyadic levels) or of the right sign leaves the exact rule in force
+    from scipy.stats import hypergeom as _hg
+    clf = float(Fraction(c["cl"])); clf = 1 - (1 - clf) / 2 if c["alt"] == "two-sided" else clf
+    for G in range(N + 1):
+        if abs(ts[G][0] - a) < Fraction(1, 10**12) and x > 0 and (clf - _hg.cdf(x - 1, N, G, n) < 0) != (ts[G][0] < a):
+            tie = True
+        if abs(ts[G][1] - a) < Fraction(1, 10**12) and x < n and (_hg.cdf(x, N, G, n) - (1 - clf) < 0) != (ts[G][1] < a):
+            tie = True
     if c["alt"] != "upper" and x > 0:
         lo = min(G for G in range(N + 1) if ts[G][0] >= a)
     if c["alt"] != "lower" and x < n:
